@@ -530,6 +530,8 @@ def check_C16(tier):
     engine_run(c, "calendar-compare", "CalMenu", lines="LinesCal", maxlines=1, maxfiles=1, modes=("incr",), tdefs=("plain",), invs=["TypeOK", "IncrSelectRefinesSem"], props=())
     # 4c. whole rows: DISTINCT / GROUP BY over tuples of three and four columns whose values are exchanged between rows and columns
     engine_run(c, "tuples", "TupleMenu", lines="Lines4", maxlines=4 if t else 3, maxfiles=1, modes=("batch", "incr"), tdefs=("plain",))
+    # 4d. join lookup: an INT key finds the REAL key of equal value and the other way round (values around 2^53 included), a NULL key finds nothing
+    engine_run(c, "numeric-join", "NumJoinMenu", lines="LinesNum", maxlines=3 if t else 2, maxfiles=1, joinsets="JoinSetsNum", tdefs=("numjoin",))
     # 5. impl -> spec: random values
     for i in range(3 if t else 1):
         tp = vh_trace("values", 6000 if t else 2500, "values%d" % i, seed_=vlib.seed() * 100 + i, env_extra={"TZ": "UTC"})
